@@ -68,7 +68,7 @@ Definition ns_oracle_eof (max : Z) (input : list Z) (items : list (list Z)) (en 
 (* ---------------- the real writers on a payload of n bytes built inside the harness (sizes around the digit-count boundaries,
    too large to pass through a script), read back by the real readers.  The expectation is not computed by running the model on
    the payload but taken from the theorems (ns_wbig_sound in CodecOracleProofs.v): header = decimal n ':', n + digits + 2 bytes,
-   ',' last, both writer overloads agree, and the payload comes back iff n < 10^9 and the limit admits it
+   ',' last, both writer overloads agree, and the payload comes back iff n < 10^9 and the limit allows it
    (buffered reader: n + 1 <= max, TLS readers: n <= max), otherwise the reader throws *)
 Definition ns_wbig_back (tls : bool) (max n : Z) : bool :=
   (n <? 10 ^ 9) && ((max <? 0) || (if tls then n <=? max else n + 1 <=? max)).
